@@ -66,7 +66,7 @@ class GroupProxNewton(BaseSolver):
         w = np.zeros(n_features + fit_intercept) if w_init is None else w_init
         Xw = np.zeros(n_samples) if Xw_init is None else Xw_init
         all_groups = np.arange(n_groups)
-        stop_crit = 0.
+        stop_crit = np.inf  # initialize for case max_iter=0
         p_objs_out = []
 
         for iter in range(self.max_iter):
